@@ -1042,6 +1042,10 @@ func initAttrFromDesign(att, patt *AttributeExpr) {
 	}
 	if att.Validation == nil {
 		att.Validation = patt.Validation
+	} else if patt.Validation != nil {
+		// validations given in the mapping (Param("id", func() { ... }))
+		// hold on top of the validations of the design attribute
+		att.Validation.Merge(patt.Validation)
 	}
 	if att.DefaultValue == nil {
 		att.DefaultValue = patt.DefaultValue
